@@ -794,3 +794,82 @@ def big_piece_cases(ctx):
     finally:
         shutil.rmtree(tmp, ignore_errors=True)
 
+
+def platform_limit_cases(ctx):
+    """create, verify, change one byte, verify, undo, verify at the limits of the platform rather than of the format:
+    more listed files than the process may hold open (RLIMIT_NOFILE lowered to 40 for imdl; 150 files, 600 in thorough),
+    content owned by another user than the one who verifies (world-readable files made by root, imdl run as uid 65534),
+    file and directory names of exactly NAME_MAX = 255 bytes. Oracle only: a torrent imdl has just created verifies
+    against the unmodified content, fails after a real change and verifies again after the change is undone. (Added after
+    seeded changes C02-10 / C03-11: every listed file opened before hashing; C02-11: O_NOATIME on the content open;
+    C02-12: a length bound on path components that is off by one.)"""
+    import random
+    plan = [("many-files", dict(n=150, nofile=40)), ("other-owner", dict(n=3)), ("name-max", dict(n=3))]
+    if ctx.thorough:
+        plan += [("many-files", dict(n=600, nofile=64)), ("many-files", dict(n=1100, nofile=1024))]
+    tmp = tempfile.mkdtemp(prefix="plat-", dir="/tmp" if os.path.isdir("/tmp") else None)
+    os.chmod(tmp, 0o755)
+    try:
+        for kind, par in plan:
+            if kind == "other-owner" and (not lib.can_drop_privileges()
+                                          or ctx.imdl(["--version"], cwd=tmp, as_nobody=True)[0] != 0):
+                # not root, no setpriv, or the binary itself is out of reach of uid 65534: nothing can be concluded
+                ctx.count("platform_other_owner_skipped")
+                continue
+            d = tempfile.mkdtemp(dir=tmp)
+            os.chmod(d, 0o755)
+            rnd = random.Random(par["n"] * 7 + len(kind))
+            root = os.path.join(d, "in")
+            os.makedirs(os.path.join(root, "sub"))
+            names = []
+            for i in range(par["n"]):
+                n = "f%04d" % i
+                if kind == "name-max":
+                    n = [("a" * 255), os.path.join("d" * 255, "x"), ("é" * 127 + "z")][i]      # 255 bytes each
+                elif i % 3 == 2:
+                    n = os.path.join("sub", n)
+                os.makedirs(os.path.dirname(os.path.join(root, n)), exist_ok=True)
+                with open(os.path.join(root, n), "wb") as f:
+                    f.write(rnd.randbytes(rnd.choice([1, 2, 3, 5, 8])))
+                names.append(n)
+            for dp, dn, fn in os.walk(d):
+                os.chmod(dp, 0o755)
+                for x in fn:
+                    os.chmod(os.path.join(dp, x), 0o644)
+            lim = dict(nofile=par.get("nofile"), as_nobody=False)
+            argv = ["torrent", "create", "--input", "in", "--piece-length", "16", "--allow", "small-piece-length"]
+            rc, out, err = ctx.imdl(argv, cwd=d, timeout=300, **lim)
+            verdicts = []
+            if rc == 0:
+                os.chmod(os.path.join(d, "in.torrent"), 0o644)
+                lim["as_nobody"] = kind == "other-owner"
+                target = os.path.join(root, names[(2 * len(names)) // 3])
+                for what in ("unchanged", "one byte changed", "change undone"):
+                    if what == "one byte changed":
+                        with open(target, "r+b") as f:
+                            old = f.read(1); f.seek(0); f.write(bytes([old[0] ^ 0x40]))
+                    elif what == "change undone":
+                        with open(target, "r+b") as f:
+                            f.write(old)
+                    r2, o2, e2 = ctx.imdl(["torrent", "verify", "--input", "in.torrent"], cwd=d, timeout=300, **lim)
+                    verdicts.append((what, r2, e2.decode("utf-8", "replace")[-200:]))
+            ctx.cov["evaluations"] += 1
+            ctx.count("platform_limit_" + kind)
+            ctx.distinct(("platform", kind, par["n"]))
+            got = [v[1] for v in verdicts]
+            if rc != 0 or got != [0, 1, 0]:
+                how = {"many-files": "%d files, at most %s open files for imdl (ulimit -n)" % (par["n"], par.get("nofile")),
+                       "other-owner": "content and torrent made by root (world-readable), verify run as uid 65534 "
+                                      "(setpriv --reuid=65534 --regid=65534 --clear-groups)",
+                       "name-max": "a file name, a directory name and a multi-byte file name of exactly 255 bytes"}[kind]
+                ctx.violation("oracle-failure",
+                              "%s: create exited %d; verify exited %r for (unchanged, one byte changed, change undone), expected "
+                              "[0, 1, 0]" % (how, rc, got),
+                              {"kind": "platform-limit", "which": kind, "parameters": par, "create_rc": rc,
+                               "create_stderr": err.decode("utf-8", "replace")[-300:], "verify": verdicts, "files": names[:5] + ["..."],
+                               "reproduce": "mkdir in; (populate %d small files); %simdl %s; %simdl torrent verify --input in.torrent"
+                                            % (par["n"], "ulimit -n %d; " % par["nofile"] if par.get("nofile") else "", " ".join(argv),
+                                               "setpriv --reuid=65534 --regid=65534 --clear-groups " if kind == "other-owner" else "")})
+            shutil.rmtree(d, ignore_errors=True)
+    finally:
+        shutil.rmtree(tmp, ignore_errors=True)
